@@ -270,6 +270,11 @@ def configs(tier):
     for init in INITS:
         for t3 in three:
             out.append({"backend": "memory", "init": init, "threads": [[o] for o in t3], "p": 1 if quick else 2, "r": 4 if quick else 8})
+    # a query in progress while two writers arrive (readers-writer style locking): two preemptions
+    rww = [["list", "regsafe_x", "regsafe2_x"], ["lookup_xy", "regsafe_x", "regsafe2_x"], ["count", "remove_x", "remove_x"]]
+    for t3 in rww:
+        for init in (("empty", "x_xy") if t3[1] == "regsafe_x" else ("x",)):
+            out.append({"backend": "memory", "init": init, "threads": [[o] for o in t3], "p": 2, "r": 4 if quick else 8})
     # sqlite back-end: NameServer lines interleave, storage calls are atomic steps
     sql_pairs = [[["remove_x"], ["remove_x"]], [["regsafe_x"], ["regsafe2_x"]], [["remove_prefix_x"], ["regsafe_xy"]],
                  [["setmeta_x"], ["remove_x"]], [["remove_x"], ["reg_x"]], [["remove_regex_x"], ["remove_x"]]]
